@@ -4,6 +4,7 @@ import (
 	"fmt"
 	"math"
 	"math/big"
+	"strconv"
 
 	"verifharness/h"
 )
@@ -73,6 +74,48 @@ func c06(c *Ctx) {
 	for _, ce := range [][2]int64{{0, 0}, {15, -1}, {-7, 3}, {999999999999999, -20}, {1, 30}, {100, -2}} {
 		nums = append(nums, nv{h.Dec(ce[0], ce[1]), ratCE(big.NewInt(ce[0]), ce[1])})
 		nums = append(nums, nv{h.PtrTo(h.Dec(ce[0], ce[1])), ratCE(big.NewInt(ce[0]), ce[1])}) // a decimal.Decimal reached through a pointer
+	}
+	// twins: different numbers that share their 64 bits under another reading (a negative int64 and the
+	// uint64 2^64+x; an integer and the float64 with the same bit pattern), converted one after the other in
+	// ONE evaluation, in both orders — whatever is remembered about one must not answer for the other
+	{
+		two64 := new(big.Int).Lsh(big.NewInt(1), 64)
+		for _, x := range []int64{-1, -2, math.MinInt64, -1024, -4294967296, math.MinInt64 + 1, -9007199254740993, 4607182418800017408, 4611686018427387904, -4616189618054758400} {
+			var twins []*D
+			var vals []*big.Rat
+			twins, vals = append(twins, h.Int("int64", x)), append(vals, big.NewRat(x, 1))
+			if x < 0 {
+				u := new(big.Int).Add(two64, big.NewInt(x))
+				twins, vals = append(twins, h.IntBig("uint64", u)), append(vals, new(big.Rat).SetInt(u))
+				twins, vals = append(twins, h.Int("int", x)), append(vals, big.NewRat(x, 1))
+			} else {
+				twins, vals = append(twins, h.IntBig("uint64", big.NewInt(x))), append(vals, big.NewRat(x, 1))
+			}
+			if f := math.Float64frombits(uint64(x)); !math.IsNaN(f) && !math.IsInf(f, 0) && math.Abs(f) < 1e15 && math.Abs(f) > 1e-15 {
+				fr, _ := new(big.Rat).SetString(strconv.FormatFloat(f, 'g', -1, 64))
+				twins, vals = append(twins, h.FloatD(f)), append(vals, fr)
+			}
+			for i := range twins {
+				for j := range twins {
+					if i == j {
+						continue
+					}
+					doc := h.Obj("a", twins[i], "b", twins[j], "xs", h.SliceAny(twins[i], twins[j]), "os", h.SliceAny(h.Obj("v", twins[i]), h.Obj("v", twins[j])))
+					ec := c.AddEval("$.a.Add($.b)", doc, "bit-twins", false, true)
+					ec.Check = exactly(new(big.Rat).Add(vals[i], vals[j]))
+					ec = c.AddEval("$.a.Subtract($.b)", doc, "bit-twins", false, true)
+					ec.Check = exactly(new(big.Rat).Sub(vals[i], vals[j]))
+					ec = c.AddEval("$.xs.Sum()", doc, "bit-twins", false, true)
+					ec.Check = exactly(new(big.Rat).Add(vals[i], vals[j]))
+					ec = c.AddEval("$.os.v.Sum()", doc, "bit-twins", false, true)
+					ec.Check = exactly(new(big.Rat).Add(vals[i], vals[j]))
+					ec = c.AddEval("$.a.Equal($.b)", doc, "bit-twins", false, true)
+					ec.Check = boolCheck(vals[i].Cmp(vals[j]) == 0)
+					ec = c.AddEval("$.xs.Last()", doc, "bit-twins", false, true)
+					ec.Check = exactly(vals[j])
+				}
+			}
+		}
 	}
 	for _, n := range nums {
 		want := n.val
